@@ -34,7 +34,7 @@ func pubr(client, topic string, q byte, id uint16, payload string) Action {
 
 // C01: routing.
 func C01(c *core.Ctx) {
-	c.Rep.Bound = "HIST: breadth-first over connect/subscribe/unsubscribe/publish/disconnect/cut histories of 2 raw clients + in-process subscriber/publisher, de-duplicated on the model state, depth 4 (quick) / 6 (thorough); default schedule with exact quiescence after every action"
+	c.Rep.Bound = "HIST: breadth-first over connect/subscribe/unsubscribe/publish/disconnect/cut histories of 2 raw clients + in-process subscriber/publisher, de-duplicated on the model state, depth 4 (quick) / 6 (thorough); default schedule with exact quiescence after every action; SCHED: concurrent Server.Publish calls, two publishers || subscribe, publish || unsubscribe, every schedule deviating from the default at <= 1 (quick) / 2 (thorough) points"
 	c.Rep.Rule = "each history is replayed on a fresh real broker (real accept loop, three goroutines per connection) over the in-memory network; after every action everything every client received is compared with the sequential broker model (must/may per receiver); distinct = canonical model states"
 	p8k := big(8000, 1)
 	ops := []Action{
@@ -96,6 +96,7 @@ func C01(c *core.Ctx) {
 			return
 		}
 	}
+	c01sched(c)
 }
 
 // wrapKey adds how often each connection's traffic has wrapped a 16 KiB ring
